@@ -28,6 +28,8 @@ func c14Directed(rng *RNG) []Case {
 	chains := [][]string{
 		{"m1"}, {"m1", "i1"}, {"m1", "m2", "i1", "i2"}, {"m1", "i3-wrongtype"}, {"m1", "m2"}, {"m3-layer3", "m1", "i1"}, {"opaque"},
 		{"docker-child", "opaque", "m1", "i-foreign"},
+		{"m1", "m4-layers-subject"},
+		{"m1", "art-carrying-m1", "i-shared-bytes"},
 	}
 	for _, chain := range chains {
 		for tagged := range chain {
